@@ -207,7 +207,9 @@ def _py_return(code, offset, retval):
     while Mon.stack and Mon.stack[-1][0] != fid:
         Mon.frames.append((Mon.stack.pop()[1], False))
     if Mon.stack:
-        Mon.frames.append((Mon.stack.pop()[1], True))
+        # a frame that hands back an AST node is a tree transformer / visitor (e.g. a NodeTransformer normalising names), not an evaluator:
+        # the node was rewritten, nothing was computed from it
+        Mon.frames.append((Mon.stack.pop()[1], not isinstance(retval, ast.AST)))
 
 
 AUDIT_IGNORE = {"sys._getframe", "object.__getattr__", "builtins.id", "sys.monitoring.register_callback"}
